@@ -436,17 +436,17 @@ Proof.
   apply Npr_binds. eapply Npr_same_ident; eauto.
 Qed.
 
-Lemma Npr_update_pod p c : Npr c -> Npr (update_pod p c).
+Lemma Npr_update_pod pn p c : Npr c -> Npr (update_pod_gen pn p c).
 Proof.
-  intros H. unfold update_pod. destruct (p_term p); [apply Npr_completion, H|].
-  destruct (p_node p =s ""); [exact H|].
+  intros H. unfold update_pod_gen. destruct (p_term p); [apply Npr_completion, H|].
+  destruct (p_node p =s ""); [destruct pn; [exact H|apply Npr_completion, H]|].
   destruct (aget (sget (p_node p) (n2p c)) (nodes c)) eqn:E; [|exact H].
   unfold bind_pod. apply Npr_binds, Npr_cob. eapply Npr_same_ident; eauto.
 Qed.
 
-Lemma Npr_cleanup_node name c : Npr c -> Npr (cleanup_node name c).
+Lemma Npr_cleanup_node k name c : Npr c -> Npr (cleanup_node_gen k name c).
 Proof.
-  intros H. unfold cleanup_node. destruct (sget name (n2p c) =s ""); [exact H|].
+  intros H. unfold cleanup_node_gen. destruct (sget name (n2p c) =s ""); [exact H|].
   destruct (aget (sget name (n2p c)) (nodes c)) as [s|] eqn:E; [|exact H].
   apply Npr_n2p. destruct (sn_claim s).
   - apply Npr_upr_set; [exact H|]. intros pool. rewrite E. reflexivity.
@@ -466,9 +466,9 @@ Proof.
   destruct (panicked c1); [exact H1|]. apply Npr_c2p, H1.
 Qed.
 
-Lemma oid_cleanup_node X name c : X <> sget name (n2p c) -> oid X (cleanup_node name c) = oid X c.
+Lemma oid_cleanup_node k X name c : X <> sget name (n2p c) -> oid X (cleanup_node_gen k name c) = oid X c.
 Proof.
-  intros Hx. unfold cleanup_node. destruct (sget name (n2p c) =s ""); [reflexivity|].
+  intros Hx. unfold cleanup_node_gen. destruct (sget name (n2p c) =s ""); [reflexivity|].
   destruct (aget (sget name (n2p c)) (nodes c)) as [s|] eqn:E; [|reflexivity].
   unfold oid. destruct (sn_claim s); c_simpl.
   - rewrite aget_aset_other by assumption. reflexivity.
@@ -511,9 +511,9 @@ Proof.
   - apply IH, H.
 Qed.
 
-Lemma Npr_update_node a n c : Npr c -> Npr (update_node a n c).
+Lemma Npr_update_node k a n c : Npr c -> Npr (update_node_gen k a n c).
 Proof.
-  intros H. unfold update_node. destruct (negb (trackable n)); [exact H|].
+  intros H. unfold update_node_gen. destruct (negb (trackable n)); [exact H|].
   set (pid := epid n).
   set (old := match aget pid (nodes c) with Some s => s | None => new_node end).
   destruct (fold_left (populate_step (n_name n)) (a_pods a)
@@ -521,7 +521,7 @@ Proof.
   pose proof (populate_snd (n_name n) (a_pods a) (mkSN (Some n) (sn_claim old) [] [] [] [] (sn_marked old)) c H) as [P1 P2].
   rewrite EF in P1, P2. cbn [snd] in P1, P2.
   set (c2 := match aget (n_name n) (n2p c1) with
-             | Some id => if id =s pid then c1 else cleanup_node (n_name n) c1
+             | Some id => if id =s pid then c1 else cleanup_node_gen k (n_name n) c1
              | None => c1 end).
   assert (H2 : Npr c2 /\ oid pid c2 = oid pid c).
   { unfold c2. destruct (aget (n_name n) (n2p c1)) as [id|] eqn:E; [|split; [exact P1|apply P2]].
@@ -556,13 +556,13 @@ Proof.
   destruct (panicked c1); [exact H1|]. apply Npr_c2p, H1.
 Qed.
 
-Lemma Npr_step cc a c o : Npr c -> Npr (cache_step_gen cc a c o).
+Lemma Npr_step v a c o : Npr c -> Npr (cache_step_gen v a c o).
 Proof.
   intros H. unfold cache_step_gen. destruct (panicked c); [exact H|].
   destruct o; try exact H.
-  - unfold deliver_node. destruct (aget name (a_nodes a)); [apply Npr_update_node, H|apply Npr_cleanup_node, H].
+  - unfold deliver_node_gen. destruct (aget name (a_nodes a)); [apply Npr_update_node, H|apply Npr_cleanup_node, H].
   - unfold deliver_claim_gen. destruct (aget name (a_claims a)); [apply Npr_update_claim, H|apply Npr_cleanup_claim, H].
-  - unfold deliver_pod. destruct (aget key (a_pods a)); [apply Npr_update_pod, H|apply Npr_completion, H].
+  - unfold deliver_pod_gen. destruct (aget key (a_pods a)); [apply Npr_update_pod, H|apply Npr_completion, H].
   - apply Npr_marks, H.
   - apply Npr_marks, H.
 Qed.
@@ -570,7 +570,7 @@ Qed.
 Lemma Npr_0 : Npr cache0.
 Proof. split; [constructor|]. intros pool _. reflexivity. Qed.
 
-Lemma Npr_run_from cc ops s : Npr (snd s) -> Npr (snd (fold_left (step_gen cc) ops s)).
+Lemma Npr_run_from v ops s : Npr (snd s) -> Npr (snd (fold_left (step_gen v) ops s)).
 Proof.
   revert s. induction ops as [|o ops IH]; intros s H; simpl; [exact H|].
   apply IH. unfold step_gen. cbn [snd]. apply Npr_step, H.
@@ -579,7 +579,7 @@ Qed.
 (* for every history: each pool's cached total is the sum over the cached StateNodes *)
 Lemma npr_invariant_l : forall (ops : list op) (pool : string), pool <> "" ->
   rget pool (npr (snd (run ops))) = pool_total pool (nodes (snd (run ops))).
-Proof. intros ops. apply (Npr_run_from true ops (api0, cache0) Npr_0). Qed.
+Proof. intros ops. apply (Npr_run_from current ops (api0, cache0) Npr_0). Qed.
 
 (* ================= a Node delivery rebuilds the node's aggregates from the API pod list ================= *)
 Definition rebuilt (a : api) (name : string) (s : snode) : Prop :=
@@ -627,13 +627,13 @@ Lemma update_node_entry a n c : api_wf a -> trackable n = true -> panicked (upda
             rebuilt a (n_name n) s /\
             aget (n_name n) (n2p (update_node a n c)) = Some (epid n).
 Proof.
-  intros (_ & _ & Hk) Ht. unfold update_node. rewrite Ht. cbn [negb].
+  intros (_ & _ & Hk) Ht. unfold update_node, update_node_gen. rewrite Ht. cbn [negb].
   set (old := match aget (epid n) (nodes c) with Some s => s | None => new_node end).
   set (n0 := mkSN (Some n) (sn_claim old) [] [] [] [] (sn_marked old)).
   pose proof (fst_populate (n_name n) (a_pods a) n0 c) as HF.
   destruct (fold_left (populate_step (n_name n)) (a_pods a) (n0, c)) as [n1 c1]. cbn [fst] in HF.
   set (c2 := match aget (n_name n) (n2p c1) with
-             | Some id => if id =s epid n then c1 else cleanup_node (n_name n) c1
+             | Some id => if id =s epid n then c1 else cleanup_node_gen false (n_name n) c1
              | None => c1 end).
   destruct (panicked c2) eqn:P; [intros HH; cbv iota in HH; congruence|]. intros _.
   exists n1. c_simpl. rewrite !aget_aset_same.
@@ -793,8 +793,8 @@ Qed.
 
 Lemma same_ids_update_pod p c : same_ids c (update_pod p c).
 Proof.
-  unfold update_pod. destruct (p_term p); [apply same_ids_completion|].
-  destruct (p_node p =s ""); [apply same_ids_refl|].
+  unfold update_pod, update_pod_gen. destruct (p_term p); [apply same_ids_completion|].
+  destruct (p_node p =s ""); [apply same_ids_completion|].
   destruct (aget (sget (p_node p) (n2p c)) (nodes c)) eqn:E; [|apply same_ids_refl].
   eapply same_ids_trans; [apply (same_ids_set c _ s (update_for_pod s p) E); reflexivity|].
   eapply same_ids_trans; [apply same_ids_cob|]. apply same_ids_binds.
@@ -811,10 +811,9 @@ Qed.
 
 (* ---- cleanupNode ---- *)
 Lemma cleanup_node_none name c : aget name (n2p c) = None -> cleanup_node name c = c.
-Proof. intros E. unfold cleanup_node, sget. rewrite E. reflexivity. Qed.
+Proof. intros E. unfold cleanup_node, cleanup_node_gen, sget. rewrite E. reflexivity. Qed.
 
-Definition drop_node (s : snode) : snode :=
-  mkSN None (sn_claim s) (sn_pods s) (sn_dsr s) (sn_costs s) (sn_vun s) (sn_marked s).
+Definition drop_node (s : snode) : snode := mkSN None (sn_claim s) [] [] [] [] (sn_marked s).
 Definition drop_claim (s : snode) : snode :=
   mkSN (sn_node s) None (sn_pods s) (sn_dsr s) (sn_costs s) (sn_vun s) (sn_marked s).
 
@@ -828,7 +827,7 @@ Lemma cleanup_node_some a c name X : CohI a c -> aget name (n2p c) = Some X ->
 Proof.
   intros H E. destruct (ci_n2p _ _ H _ _ E) as (Hx & s & nd & E1 & E2 & E3).
   exists s, nd. repeat split; try assumption.
-  unfold cleanup_node, sget. rewrite E. apply String.eqb_neq in Hx. rewrite Hx, E1.
+  unfold cleanup_node, cleanup_node_gen, sget. rewrite E. apply String.eqb_neq in Hx. rewrite Hx, E1.
   destruct (sn_claim s) eqn:EC; [unfold drop_node; rewrite EC|]; reflexivity.
 Qed.
 
@@ -1074,4 +1073,318 @@ Proof.
   - intros k X cl'. rewrite aget_aset. destruct (k =s name) eqn:Ek; seq.
     + intros [= <-] _ F. fold name in Ea. assert (cl' = cl) by congruence. subst cl'. exact Hpid.
     + eapply (ci_launched _ _ H).
+Qed.
+
+(* ---- UpdateNode / UpdateNodeClaim in stages ---- *)
+Definition un_old (nd : nodeobj) (c : cache) : snode :=
+  match aget (epid nd) (nodes c) with Some s => s | None => new_node end.
+Definition un_n0 nd c := mkSN (Some nd) (sn_claim (un_old nd c)) [] [] [] [] (sn_marked (un_old nd c)).
+Definition un_c1 a nd c := snd (fold_left (populate_step (n_name nd)) (a_pods a) (un_n0 nd c, c)).
+Definition un_n1 a nd c := fold_left (pop_sn (n_name nd)) (a_pods a) (un_n0 nd c).
+Definition un_c2 a nd c :=
+  match aget (n_name nd) (n2p (un_c1 a nd c)) with
+  | Some id => if id =s epid nd then un_c1 a nd c else cleanup_node (n_name nd) (un_c1 a nd c)
+  | None => un_c1 a nd c
+  end.
+
+Lemma update_node_eq a nd c : trackable nd = true -> panicked (un_c2 a nd c) = false ->
+  update_node a nd c =
+  with_n2p (with_nodes (upr_c (Some (un_old nd c)) (Some (un_n1 a nd c)) (un_c2 a nd c))
+                       (aset (epid nd) (un_n1 a nd c) (nodes (un_c2 a nd c))))
+           (aset (n_name nd) (epid nd) (n2p (un_c2 a nd c))).
+Proof.
+  intros Ht. unfold update_node, update_node_gen, un_c2, un_c1, un_n1. rewrite Ht. cbn [negb].
+  change (cleanup_node_gen false) with cleanup_node.
+  fold (un_old nd c). fold (un_n0 nd c).
+  rewrite <- (fst_populate (n_name nd) (a_pods a) (un_n0 nd c) c).
+  destruct (fold_left (populate_step (n_name nd)) (a_pods a) (un_n0 nd c, c)) as [n1 c1]. cbn [fst snd].
+  intros P. rewrite P. reflexivity.
+Qed.
+
+Lemma un_c2_facts a nd c : CohI a c ->
+  CohI a (un_c2 a nd c) /\ oid (epid nd) (un_c2 a nd c) = oid (epid nd) c /\
+  (aget (n_name nd) (n2p (un_c2 a nd c)) = None \/ aget (n_name nd) (n2p (un_c2 a nd c)) = Some (epid nd)).
+Proof.
+  intros H.
+  pose proof (same_ids_populate (n_name nd) (a_pods a) (un_n0 nd c) c) as S. fold (un_c1 a nd c) in S.
+  pose proof (CohI_same_ids a _ _ S H) as H1. destruct S as (_ & SN & _ & SO).
+  unfold un_c2. destruct (aget (n_name nd) (n2p (un_c1 a nd c))) as [id|] eqn:E.
+  - destruct (id =s epid nd) eqn:Ei; seq.
+    + split; [exact H1|split; [apply SO|right; exact E]].
+    + split; [apply CohI_cleanup_node, H1|]. split.
+      * unfold cleanup_node. rewrite oid_cleanup_node; [apply SO|]. unfold sget. rewrite E. congruence.
+      * left. destruct (cleanup_node_some a _ _ _ H1 E) as (s & nd' & _ & _ & _ & ->). c_simpl. apply aget_adel_same.
+  - split; [exact H1|split; [apply SO|left; exact E]].
+Qed.
+
+Lemma CohI_update_node a nd c : api_ok a -> aget (n_name nd) (a_nodes a) = Some nd -> CohI a c ->
+  CohI a (update_node a nd c).
+Proof.
+  intros Hok Ea H. destruct (trackable nd) eqn:Ht; [|unfold update_node, update_node_gen; rewrite Ht; exact H].
+  destruct (un_c2_facts a nd c H) as (H2 & O2 & N2).
+  rewrite update_node_eq by (assumption || apply H2).
+  apply CohI_install_node; try assumption.
+  - apply (pop_ident (n_name nd) (a_pods a) (un_n0 nd c)).
+  - destruct (pop_ident (n_name nd) (a_pods a) (un_n0 nd c)) as (_ & I2 & _). unfold un_n1. rewrite I2.
+    unfold un_n0, un_old; cbn [sn_claim]. unfold oid in O2.
+    destruct (aget (epid nd) (nodes (un_c2 a nd c))) as [o|], (aget (epid nd) (nodes c)) as [o'|];
+      simpl in O2; try discriminate; [|reflexivity].
+    assert (O3 : ident o = ident o') by congruence. apply ident_fields in O3. symmetry. apply O3.
+Qed.
+
+Definition uc_old (cl : claimobj) (c : cache) : snode :=
+  match aget (c_pid cl) (nodes c) with Some s => s | None => new_node end.
+Definition uc_n cl c :=
+  mkSN (sn_node (uc_old cl c)) (Some cl) (sn_pods (uc_old cl c)) (sn_dsr (uc_old cl c)) (sn_costs (uc_old cl c))
+       (sn_vun (uc_old cl c)) (sn_marked (uc_old cl c)).
+Definition uc_c1 cl c :=
+  match aget (c_name cl) (c2p c) with
+  | Some id => if id =s c_pid cl then c else cleanup_claim (c_name cl) c
+  | None => c
+  end.
+
+Lemma update_claim_eq cl c : c_pid cl <> "" -> panicked (uc_c1 cl c) = false ->
+  update_claim cl c =
+  with_c2p (with_nodes (upr_c (Some (uc_old cl c)) (Some (uc_n cl c)) (uc_c1 cl c))
+                       (aset (c_pid cl) (uc_n cl c) (nodes (uc_c1 cl c))))
+           (aset (c_name cl) (c_pid cl) (c2p (uc_c1 cl c))).
+Proof.
+  intros Hp P. unfold update_claim, update_claim_gen. apply String.eqb_neq in Hp. rewrite Hp.
+  fold (uc_old cl c). fold (uc_c1 cl c). rewrite P. c_simpl. rewrite P. reflexivity.
+Qed.
+
+Lemma update_claim_unlaunched cl c : c_pid cl = "" -> panicked c = false ->
+  update_claim cl c = with_c2p c (aset (c_name cl) "" (c2p c)).
+Proof. intros E P. unfold update_claim, update_claim_gen. rewrite E. simpl. rewrite P. reflexivity. Qed.
+
+Lemma uc_c1_facts a cl c : CohI a c -> c_pid cl <> "" ->
+  CohI a (uc_c1 cl c) /\ oid (c_pid cl) (uc_c1 cl c) = oid (c_pid cl) c /\
+  (aget (c_name cl) (c2p (uc_c1 cl c)) = None \/ aget (c_name cl) (c2p (uc_c1 cl c)) = Some (c_pid cl)).
+Proof.
+  intros H Hp. unfold uc_c1. destruct (aget (c_name cl) (c2p c)) as [id|] eqn:E.
+  - destruct (id =s c_pid cl) eqn:Ei; seq.
+    + split; [exact H|split; [reflexivity|right; exact E]].
+    + split; [apply CohI_cleanup_claim, H|]. split.
+      * apply oid_cleanup_claim. unfold sget. rewrite E. congruence.
+      * left. destruct (id =s "") eqn:E0; seq.
+        -- rewrite cleanup_claim_unlaunched, (ci_np _ _ H) by (unfold sget; rewrite E; reflexivity).
+           c_simpl. apply aget_adel_same.
+        -- destruct (cleanup_claim_some a _ _ _ H E E0) as (s & cl' & _ & _ & _ & ->). c_simpl. apply aget_adel_same.
+  - split; [exact H|split; [reflexivity|left; exact E]].
+Qed.
+
+Lemma CohI_update_claim a cl c : api_ok a -> aget (c_name cl) (a_claims a) = Some cl -> CohI a c ->
+  CohI a (update_claim cl c).
+Proof.
+  intros Hok Ea H. destruct (c_pid cl =s "") eqn:Ep; seq.
+  - (* not launched: only the name map changes *)
+    rewrite update_claim_unlaunched by (assumption || apply H).
+    assert (NotName : forall X s cl', aget X (nodes c) = Some s -> sn_claim s = Some cl' -> c_name cl' <> c_name cl).
+    { intros X s cl' F1 F2 Hn. pose proof (ci_cback _ _ H _ _ _ F1 F2) as Hb. rewrite Hn in Hb.
+      pose proof (ci_keys _ _ H _ _ F1) as Hx. pose proof (ci_launched _ _ H _ _ _ Hb Hx Ea). congruence. }
+    constructor; c_simpl; try apply H.
+    + intros k X. rewrite aget_aset. destruct (k =s c_name cl); [intros [= <-] Hx; congruence|]. eapply (ci_c2p _ _ H).
+    + intros X s cl' F1 F2. rewrite aget_aset_other by (eapply NotName; eauto). eapply (ci_cback _ _ H); eauto.
+    + intros k X cl' k'. rewrite aget_aset. destruct (k =s c_name cl); [intros [= <-] Hx; congruence|]. eapply (ci_own_c _ _ H).
+    + intros k X cl'. rewrite aget_aset. destruct (k =s c_name cl); [intros [= <-] Hx; congruence|]. eapply (ci_launched _ _ H).
+  - destruct (uc_c1_facts a cl c H Ep) as (H1 & O1 & N1).
+    rewrite update_claim_eq by (assumption || apply H1).
+    apply CohI_install_claim; try assumption; [reflexivity|].
+    unfold uc_n, uc_old; cbn [sn_node]. unfold oid in O1.
+    destruct (aget (c_pid cl) (nodes (uc_c1 cl c))) as [o|], (aget (c_pid cl) (nodes c)) as [o'|];
+      simpl in O1; try discriminate; [|reflexivity].
+    assert (O3 : ident o = ident o') by congruence. apply ident_fields in O3. symmetry. apply O3.
+Qed.
+
+(* every delivery of the closing round keeps the identity layer coherent *)
+Lemma CohI_deliver a c o : api_ok a ->
+  match o with DeliverNode _ | DeliverClaim _ | DeliverPod _ => True | _ => False end ->
+  CohI a c -> CohI a (cache_step a c o).
+Proof.
+  intros Hok Ho H. unfold cache_step, cache_step_gen. rewrite (ci_np _ _ H).
+  destruct o; try contradiction.
+  - unfold deliver_node_gen. cbn [current v_keep_aggs]. fold cleanup_node. fold update_node.
+    destruct (aget name (a_nodes a)) as [nd|] eqn:E; [|apply CohI_cleanup_node, H].
+    destruct (epid_nonempty a _ _ Hok E) as [_ Hn]. apply CohI_update_node; try assumption. rewrite Hn. exact E.
+  - unfold deliver_claim_gen. cbn [current v_drop_costs negb]. fold update_claim.
+    destruct (aget name (a_claims a)) as [cl|] eqn:E; [|apply CohI_cleanup_claim, H].
+    pose proof (claim_named a _ _ Hok E) as Hn. apply CohI_update_claim; try assumption. rewrite Hn. exact E.
+  - unfold deliver_pod_gen. cbn [current v_pending_noop]. fold update_pod. destruct (aget key (a_pods a)).
+    + eapply CohI_same_ids; [apply same_ids_update_pod|exact H].
+    + eapply CohI_same_ids; [apply same_ids_completion|exact H].
+Qed.
+
+(* ================= aggregate layer ================= *)
+Lemma nodupk_pop name l s : nodupk (sn_pods s) -> nodupk (sn_pods (fold_left (pop_sn name) l s)).
+Proof.
+  revert s. induction l as [|kp l IH]; intros s H; simpl; [exact H|]. apply IH.
+  unfold pop_sn. destruct (on_node name (snd kp)); [|exact H]. sn_simpl. apply nodupk_aset, H.
+Qed.
+
+Lemma mem_true_iff v l : mem v l = true <-> In v l.
+Proof.
+  unfold mem. rewrite existsb_exists. split.
+  - intros (x & Hx & E). apply String.eqb_eq in E. subst. exact Hx.
+  - intros H. exists v. split; [exact H|apply String.eqb_refl].
+Qed.
+
+Lemma bool_eq_iff (b1 b2 : bool) : (b1 = true <-> b2 = true) -> b1 = b2.
+Proof. destruct b1, b2; intuition congruence. Qed.
+
+Lemma mem_vols_of v (m : amap pent) : nodupk m ->
+  (mem v (vols_of m) = true <-> exists k e, aget k m = Some e /\ In v (e_vols e)).
+Proof.
+  intros Hn. rewrite mem_true_iff. unfold vols_of. rewrite in_flat_map. split.
+  - intros ([k e] & Hin & Hv). exists k, e. split; [apply in_aget; assumption|exact Hv].
+  - intros (k & e & Hg & Hv). exists (k, e). split; [apply aget_in; exact Hg|exact Hv].
+Qed.
+
+(* the union of the volumes of the pods bound to [name], as the specification states it *)
+Lemma spec_vol_iff a name v : keyed p_key (a_pods a) ->
+  (existsb (fun kp => match pod_on a name (fst kp) with Some p => mem v (p_vols p) | None => false end) (a_pods a) = true
+   <-> exists k p, pod_on a name k = Some p /\ In v (p_vols p)).
+Proof.
+  intros Hk. rewrite existsb_exists. split.
+  - intros ([k p0] & Hin & E). cbn [fst] in E. destruct (pod_on a name k) as [p|] eqn:Ep; [|discriminate].
+    exists k, p. split; [exact Ep|apply mem_true_iff, E].
+  - intros (k & p & Ep & Hv). unfold pod_on in Ep. destruct (aget k (a_pods a)) as [p'|] eqn:Eg; [|discriminate].
+    exists (k, p'). split; [apply aget_in, Eg|]. cbn [fst]. unfold pod_on. rewrite Eg.
+    destruct ((p_node p' =s name) && negb (p_term p')); [|discriminate]. injection Ep as <-. apply mem_true_iff, Hv.
+Qed.
+
+Lemma rebuilt_vun_exact a name s : keyed p_key (a_pods a) -> nodupk (sn_pods s) ->
+  (forall key, aget key (sn_pods s) = option_map pent_of (pod_on a name key)) ->
+  forall v, mem v (vols_of (sn_pods s)) =
+            existsb (fun kp => match pod_on a name (fst kp) with Some p => mem v (p_vols p) | None => false end) (a_pods a).
+Proof.
+  intros Hk Hn Hp v. apply bool_eq_iff. rewrite mem_vols_of, spec_vol_iff by assumption. split.
+  - intros (k & e & Hg & Hv). rewrite Hp in Hg. destruct (pod_on a name k) as [p|] eqn:Ep; [|discriminate].
+    injection Hg as <-. exists k, p. auto.
+  - intros (k & p & Ep & Hv). exists k, (pent_of p). rewrite Hp, Ep. auto.
+Qed.
+
+Lemma rebuilt_cleanup a name k s : keyed p_key (a_pods a) -> nodupk (sn_pods s) ->
+  rebuilt a name s -> pod_on a name k = None -> rebuilt a name (cleanup_for_pod k s).
+Proof.
+  intros Hk Hn (R1 & R2 & R3 & R4) Hnone.
+  assert (P1 : forall key, aget key (adel k (sn_pods s)) = option_map pent_of (pod_on a name key)).
+  { intros key. rewrite aget_adel. destruct (key =s k) eqn:E; seq; [rewrite Hnone; reflexivity|apply R1]. }
+  split; [exact P1|split; [|split]]; sn_simpl.
+  - intros key. rewrite aget_adel. destruct (key =s k) eqn:E; seq; [rewrite Hnone; reflexivity|apply R2].
+  - intros key. rewrite aget_adel. destruct (key =s k) eqn:E; seq; [rewrite Hnone; reflexivity|apply R3].
+  - apply (rebuilt_vun_exact a name (cleanup_for_pod k s) Hk); sn_simpl; [apply nodupk_adel, Hn|exact P1].
+Qed.
+
+Lemma rebuilt_update a name s p : keyed p_key (a_pods a) ->
+  rebuilt a name s -> pod_on a name (p_key p) = Some p -> rebuilt a name (update_for_pod s p).
+Proof.
+  intros Hk (R1 & R2 & R3 & R4) Hon. split; [|split; [|split]]; sn_simpl.
+  - intros key. rewrite aget_aset. destruct (key =s p_key p) eqn:E; seq; [rewrite Hon; reflexivity|apply R1].
+  - intros key. pose proof (R2 key) as Q. destruct (p_ds p) eqn:Ed; [|exact Q].
+    rewrite aget_aset. destruct (key =s p_key p) eqn:E; seq; [rewrite Hon, Ed; reflexivity|exact Q].
+  - intros key. pose proof (R3 key) as Q. destruct (p_ds p) eqn:Ed; [exact Q|].
+    destruct (0 <? p_cost p) eqn:Ec.
+    + rewrite aget_aset. destruct (key =s p_key p) eqn:E; seq; [rewrite Hon, Ed, Ec; reflexivity|exact Q].
+    + rewrite aget_adel. destruct (key =s p_key p) eqn:E; seq; [rewrite Hon, Ed, Ec; reflexivity|exact Q].
+  - intros v. rewrite mem_app, R4. apply bool_eq_iff. rewrite orb_true_iff, !spec_vol_iff by assumption. split.
+    + intros [H|H]; [exact H|]. exists (p_key p), p. split; [exact Hon|apply mem_true_iff, H].
+    + intros H. left. exact H.
+Qed.
+
+Lemma nodupk_cleanup k s : nodupk (sn_pods s) -> nodupk (sn_pods (cleanup_for_pod k s)).
+Proof. intros H. sn_simpl. apply nodupk_adel, H. Qed.
+Lemma nodupk_update s p : nodupk (sn_pods s) -> nodupk (sn_pods (update_for_pod s p)).
+Proof. intros H. sn_simpl. apply nodupk_aset, H. Qed.
+
+(* ================= settled facts of the closing round ================= *)
+Definition SNa (a : api) (m X : string) (c : cache) : Prop :=
+  exists s nd, aget X (nodes c) = Some s /\ aget m (a_nodes a) = Some nd /\ sn_node s = Some nd /\
+               rebuilt a m s /\ nodupk (sn_pods s) /\
+               (forall key p, pod_on a m key = Some p -> aget key (binds c) = Some m).
+
+Lemma pod_on_inv a m key p : pod_on a m key = Some p ->
+  aget key (a_pods a) = Some p /\ p_node p = m /\ p_term p = false.
+Proof.
+  unfold pod_on. destruct (aget key (a_pods a)) as [p'|]; [|discriminate].
+  destruct (p_node p' =s m) eqn:E1; [|discriminate]. destruct (p_term p') eqn:E2; [discriminate|].
+  simpl. intros [= <-]. seq. auto.
+Qed.
+
+Lemma pod_on_other a m p : aget (p_key p) (a_pods a) = Some p -> p_node p <> m -> pod_on a m (p_key p) = None.
+Proof.
+  intros E Hn. unfold pod_on. rewrite E. apply String.eqb_neq in Hn. rewrite Hn. reflexivity.
+Qed.
+
+Lemma bind_clause a m p (b b' : amap string) :
+  aget (p_key p) (a_pods a) = Some p ->
+  (forall key p', pod_on a m key = Some p' -> aget key b = Some m) ->
+  (forall key', key' <> p_key p -> aget key' b' = aget key' b) ->
+  aget (p_key p) b' = Some (p_node p) ->
+  forall key p', pod_on a m key = Some p' -> aget key b' = Some m.
+Proof.
+  intros Ep Hb Hother Hthis key p' Hon.
+  destruct (string_dec key (p_key p)) as [->|Hne].
+  - destruct (pod_on_inv _ _ _ _ Hon) as (E1 & E2 & _). rewrite Hthis. congruence.
+  - rewrite Hother by assumption. eapply Hb; eauto.
+Qed.
+
+Lemma sget_some k (m : amap string) X : X <> "" -> sget k m = X -> aget k m = Some X.
+Proof. unfold sget. destruct (aget k m); [congruence|]. intros H E. congruence. Qed.
+
+Lemma SNa_cob_bind a m X c p : api_ok a -> CohI a c -> aget m (n2p c) = Some X -> SNa a m X c ->
+  aget (p_key p) (a_pods a) = Some p ->
+  SNa a m X (bind_pod p (cleanup_old_bindings p c)).
+Proof.
+  intros [(_ & _ & Hk) _] H En (s & nd & E1 & E2 & E3 & R & Nd & B) Ep.
+  pose proof (proj1 (ci_n2p _ _ H _ _ En)) as Hx.
+  assert (Same : SNa a m X (bind_pod p c)).
+  { exists s, nd. repeat split; try assumption. unfold bind_pod; c_simpl.
+    eapply (bind_clause a m p (binds c)); eauto.
+    - intros key' Hne. apply aget_aset_other, Hne.
+    - apply aget_aset_same. }
+  unfold cleanup_old_bindings. destruct (aget (p_key p) (binds c)) as [old|] eqn:Eb; [|exact Same].
+  destruct (old =s p_node p) eqn:Eo; [exact Same|]. seq.
+  destruct (aget (sget old (n2p c)) (nodes c)) as [s0|] eqn:E0; [|exact Same].
+  unfold bind_pod; c_simpl.
+  assert (BC : forall key p', pod_on a m key = Some p' ->
+               aget key (aset (p_key p) (p_node p) (adel (p_key p) (binds c))) = Some m).
+  { eapply (bind_clause a m p (binds c)); eauto.
+    - intros key' Hne. rewrite aget_aset_other, aget_adel_other by assumption. reflexivity.
+    - apply aget_aset_same. }
+  destruct (string_dec (sget old (n2p c)) X) as [Ex|Ex].
+  - (* the old binding points at m itself: the pod left m *)
+    assert (old = m) by (eapply ci_n2p_inj; eauto; apply sget_some; assumption). subst old.
+    rewrite Ex in *. assert (s0 = s) by congruence. subst s0.
+    exists (cleanup_for_pod (p_key p) s), nd. rewrite aget_aset_same.
+    repeat split; try assumption.
+    + apply rebuilt_cleanup; try assumption. apply pod_on_other; [exact Ep|]. congruence.
+    + apply nodupk_cleanup, Nd.
+  - exists s, nd. rewrite aget_aset_other by congruence. repeat split; assumption.
+Qed.
+
+(* populateResourceRequests of another node keeps a settled node settled *)
+Lemma populate_inv name l (Q : cache -> Prop) :
+  (forall k p c, In (k, p) l -> Q c -> Q (bind_pod p (cleanup_old_bindings p c))) ->
+  forall s c, Q c -> Q (snd (fold_left (populate_step name) l (s, c))).
+Proof.
+  induction l as [|[k p] l IH]; intros Hstep s c Hq; simpl; [exact Hq|].
+  unfold populate_step at 2. cbn [fst snd].
+  destruct ((p_node p =s name) && negb (p_term p)).
+  - apply IH; [intros; eapply Hstep; eauto; right; assumption|]. eapply Hstep; [left; reflexivity|exact Hq].
+  - apply IH; [intros; eapply Hstep; eauto; right; assumption|exact Hq].
+Qed.
+
+Lemma SNa_populate a m X c name s0 : api_ok a -> CohI a c -> aget m (n2p c) = Some X -> SNa a m X c ->
+  SNa a m X (snd (fold_left (populate_step name) (a_pods a) (s0, c))).
+Proof.
+  intros Hok H En Hs.
+  apply (populate_inv name (a_pods a) (fun c' => CohI a c' /\ aget m (n2p c') = Some X /\ SNa a m X c')); [|auto].
+  intros k p c' Hin (H' & En' & Hs').
+  assert (Ep : aget (p_key p) (a_pods a) = Some p).
+  { destruct Hok as [(_ & _ & Hk) _]. rewrite (proj2 Hk k p Hin). apply in_aget; [apply Hk|exact Hin]. }
+  assert (S : same_ids c' (bind_pod p (cleanup_old_bindings p c'))).
+  { eapply same_ids_trans; [apply same_ids_cob|apply same_ids_binds]. }
+  split; [eapply CohI_same_ids; eauto|]. split.
+  - destruct S as (_ & -> & _). exact En'.
+  - apply SNa_cob_bind; assumption.
 Qed.
